@@ -236,7 +236,12 @@ FormFullA(int n, int_t *nonz, doublecomplex **nzval, int_t **rowind, int_t **col
 	    ++marker[col];
 	}
 
-    new_nnz = *nonz * 2 - n;
+    /* Count the diagonal entries that are actually stored: they are the
+       only ones not duplicated by the expansion. */
+    new_nnz = *nonz * 2;
+    for (j = 0; j < n; ++j)
+	for (i = al_colptr[j]; i < al_colptr[j+1]; ++i)
+	    if ( al_rowind[i] == j ) --new_nnz;
     if ( !(a_colptr = intMalloc( n+1 ) ) )
 	ABORT("SUPERLU_MALLOC a_colptr[]");
     if ( !(a_rowind = intMalloc( new_nnz) ) )
